@@ -527,6 +527,12 @@ class StdioClient:
                 with anyio.CancelScope(shield=True):
                     if self.process and self.process.returncode is None:
                         await self._terminate_process()
+                    # Release our ends of the child's pipes.  A stdout pipe whose
+                    # reading is paused (the child flooded it) never sees EOF and
+                    # would otherwise stay open until the garbage collector finds
+                    # the transport.
+                    if self.process and self.process.returncode is not None:
+                        await self.process.aclose()
             except Exception as e:
                 logger.debug(f"Error during stdio client shutdown: {e}")
 
